@@ -11,7 +11,7 @@ def hook_commits():
     except Exception:
         return []
 
-SIM_NOTE = ("Trusted base: the simulated kernel (harness/src/sim, fidelity rules K1-K16 in DESIGN.md section 3), the tracking allocator and the "
+SIM_NOTE = ("Trusted base: the simulated kernel (harness/src/sim, fidelity rules K1-K18 in DESIGN.md section 3), the tracking allocator and the "
             "libc symbol interposition; interleavings only under sequential consistency; bounded search, not absence.")
 
 CHECKS = {
